@@ -144,6 +144,9 @@ func SolveHint(workDir, name, query string, timeoutS int, solverTime *SolverStat
 		for i, t := range tasks {
 			t := t
 			delay := time.Duration(i) * 500 * time.Millisecond
+			if len(tasks) > 6 {
+				delay = time.Duration(i) * 100 * time.Millisecond
+			}
 			go func() {
 				// staggered start: most goals fall to the first solver within a few hundred ms
 				select {
@@ -205,6 +208,25 @@ func SolveHint(workDir, name, query string, timeoutS int, solverTime *SolverStat
 	}
 	if timeoutS <= s1 || fastMode {
 		return SolveResult{Status: "unknown", Solver: "portfolio"}
+	}
+	// stage 1.5: seed sweep. Goals that mix e-matching with integer reasoning about element
+	// strides (3k+1 != 3m) are decided in milliseconds or not at all depending on the search order;
+	// a handful of seeds with pure e-matching finds the short proof when there is one.
+	var ts []task
+	for seed := 1; seed <= 6; seed++ {
+		seed := seed
+		ts = append(ts, task{solverSpec{"z3-new", func(f string, t int) []string {
+			return []string{"z3-new", fmt.Sprintf("-T:%d", t), "smt.mbqi=false", fmt.Sprintf("smt.random_seed=%d", seed), f}
+		}}, files[0]})
+	}
+	for seed := 1; seed <= 3; seed++ {
+		seed := seed
+		ts = append(ts, task{solverSpec{"z3", func(f string, t int) []string {
+			return []string{"z3", fmt.Sprintf("-T:%d", t), "smt.mbqi=false", fmt.Sprintf("smt.random_seed=%d", seed), f}
+		}}, files[0]})
+	}
+	if r, done := race(ts, s1); done {
+		return r
 	}
 	// stage 2: all solvers, all variants, full budget
 	var t2 []task
